@@ -348,4 +348,16 @@ def r11_charrefs(ctx):
         o["site"] = "charref:" + o["site"]
         o["rule"] = "R11"
 
-RULES = [("R1", r1_inverse), ("R2", r2_sets), ("R3", r3_delimiter), ("R4", r4_split_before_unescape), ("R5", r5_keys), ("R6", r6_quote_target), ("R7", r7_bool_table), ("R8", r8_lists), ("R9", r9_numeric_table), ("R10", r10_option_table), ("R11", r11_charrefs)]
+def r12_names(ctx):
+    """"serialization succeeds" for every value whose names are XML names: the serializer's name check must accept
+    exactly the XML 1.1 Name production, no less (C13 R2's exact interval sets re-evaluated: a class that lost a
+    character makes legal keys unserializable)"""
+    import c13
+    n0 = len(ctx.obs)
+    c13.r2_xmlname(ctx)
+    for o in ctx.obs[n0:]:
+        o["site"] = "names:" + o["site"]
+        o["rule"] = "R12"
+
+
+RULES = [("R1", r1_inverse), ("R2", r2_sets), ("R3", r3_delimiter), ("R4", r4_split_before_unescape), ("R5", r5_keys), ("R6", r6_quote_target), ("R7", r7_bool_table), ("R8", r8_lists), ("R9", r9_numeric_table), ("R10", r10_option_table), ("R11", r11_charrefs), ("R12", r12_names)]
